@@ -259,7 +259,7 @@ func withAuthz(t *Tables, name string) *Tables {
 // ---- case description ----------------------------------------------------------
 
 type StepSpec struct {
-	Ret    string `json:"ret"`              // ka done err open
+	Ret    string `json:"ret"`              // ka done err open panic
 	Tables *int   `json:"tables,omitempty"` // tables installed by the handler before it returns
 }
 type ImportSpec struct {
@@ -568,6 +568,8 @@ func (r *caseRun) handler(id int) server.HandlerFunc {
 			return errors.New("handler failed")
 		case "open":
 			return server.KeepOpen()
+		case "panic":
+			panic("vh-c05: scripted handler panic")
 		}
 		c.KeepAlive()
 		return nil
@@ -834,12 +836,14 @@ func (r *caseRun) runConn(sp *ConnSpec) (obsTerm string, connTerm string) {
 	_ = sc.SetDeadline(time.Now().Add(10 * time.Second))
 	done := make(chan struct{})
 	var serr error
-	var closed bool
+	var closed, panicked bool
 	go func() {
 		defer close(done)
 		defer func() {
 			if x := recover(); x != nil {
+				// ServeConn has no recover of its own: a handler's panic unwinds it
 				serr = fmt.Errorf("panic: %v", x)
+				panicked = true
 			}
 			// what ServeConn left behind is recorded; then release a client that is
 			// still writing to a connection the handler kept open
@@ -1058,7 +1062,18 @@ func (r *caseRun) runConn(sp *ConnSpec) (obsTerm string, connTerm string) {
 		if len(cr.invs) < delivered && (len(cr.invs) == 0 || lastRet == "ka") && serr == nil {
 			r.bad(cr, "refusal-not-reported", "command %d was delivered and not run, but ServeConn returned nil", sp.Cmds[len(cr.invs)])
 		}
-		if !closed && !(lastRet == "open" && len(cr.invs) > 0) {
+		// a handler that did anything but return nil after KeepAlive() ended the connection:
+		// no command may have run after it
+		for k := 0; k+1 < len(cr.invs); k++ {
+			if k < len(sp.Steps) && sp.Steps[k].Ret != "ka" {
+				r.bad(cr, "command-ran-after-handler-ended", "handler %d of %v ended with %q, yet %d handlers ran on the connection", k, sp.Cmds, sp.Steps[k].Ret, len(cr.invs))
+			}
+		}
+		if panicked != (lastRet == "panic" && len(cr.invs) > 0) {
+			r.bad(cr, "panic-outcome-wrong", "ServeConn unwound by a panic: %t, the last handler that ran was scripted to %q (err=%v)", panicked, lastRet, serr)
+		}
+		// (after a panic ServeConn itself closes nothing: Server.Serve's recover does, see servePanic)
+		if !closed && !panicked && !(lastRet == "open" && len(cr.invs) > 0) {
 			r.bad(cr, "connection-not-closed", "ServeConn returned (err=%v) after running %d of %v without closing the connection", serr, len(cr.invs), sp.Cmds)
 		}
 	}
@@ -1073,6 +1088,8 @@ func (r *caseRun) runConn(sp *ConnSpec) (obsTerm string, connTerm string) {
 	}
 	endc := 0
 	switch {
+	case panicked:
+		endc = 4
 	case serr != nil:
 		endc = 1
 	case !closed:
@@ -1095,7 +1112,7 @@ func (r *caseRun) runConn(sp *ConnSpec) (obsTerm string, connTerm string) {
 		if k+1 < n && sp.Kind != "raw" {
 			next = "(Some " + core.Z(int64(sp.Cmds[k+1])) + ")"
 		}
-		ret := map[string]string{"ka": "HKeepAlive", "done": "HDone", "err": "HErr", "open": "HKeepOpen"}[stp.Ret]
+		ret := map[string]string{"ka": "HKeepAlive", "done": "HDone", "err": "HErr", "open": "HKeepOpen", "panic": "HPanic"}[stp.Ret]
 		steps = append(steps, fmt.Sprintf("(Build_tstep %s %s %s)", ret, next, core.Nat(cur)))
 	}
 	connTerm = fmt.Sprintf("(TConn (Build_tconn %s %d %s %s %s))", core.Nat(sp.Tables), addrCode[sp.Peer], first, hs, core.List(steps))
@@ -1365,7 +1382,7 @@ func generate(c *core.Ctx) []*CaseSpec {
 	}
 	// (2) handler return kinds: first handler returns done/err/open, client still sends a second command
 	for _, k := range kinds[:5] {
-		for _, ret := range []string{"done", "err", "open"} {
+		for _, ret := range []string{"done", "err", "open", "panic"} {
 			for _, c0 := range []int{cmdP, cmdN, cmdAE} {
 				for _, c1 := range []int{cmdP, cmdAE, cmdR} {
 					sp := connOf(k, []int{c0, c1}, 0)
@@ -1375,7 +1392,19 @@ func generate(c *core.Ctx) []*CaseSpec {
 			}
 		}
 	}
-	for _, ret := range []string{"done", "err", "open", "ka"} {
+	// the SECOND (kept-alive) handler fails while a third command is on the wire; resumed sessions too
+	for _, k := range kinds[:2] {
+		for _, ret := range []string{"err", "panic"} {
+			sp := connOf(k, []int{cmdP, cmdN, cmdP}, 0)
+			sp.Steps = []StepSpec{{Ret: "ka"}, {Ret: ret}}
+			g.add(&CaseSpec{Class: "ret/second-" + ret, Tables: []*Tables{base}, Events: []Event{{Conn: sp}}})
+			first := connOf(k, []int{cmdP}, 0)
+			first.Steps = []StepSpec{{Ret: "done"}}
+			res := &ConnSpec{Peer: addr1, Kind: "resume", ResumeOf: 1, Cmds: []int{cmdP, cmdP, cmdP}, Steps: []StepSpec{{Ret: "ka"}, {Ret: ret}}}
+			g.add(&CaseSpec{Class: "ret/resumed-second-" + ret, Tables: []*Tables{base}, Events: []Event{{Conn: first}, {Conn: res}}})
+		}
+	}
+	for _, ret := range []string{"done", "err", "open", "ka", "panic"} {
 		sp := &ConnSpec{Peer: addr1, Kind: "raw", Cmds: []int{cmdR, cmdP}, Steps: []StepSpec{{Ret: ret}}}
 		g.add(&CaseSpec{Class: "ret-raw/" + ret, Tables: []*Tables{base}, Events: []Event{{Conn: sp}}})
 	}
@@ -1912,6 +1941,7 @@ func genMain(c *core.Ctx) error {
 		maxLen = 4
 	}
 	tableCases(c)
+	servePanic(c)
 	specs := generate(c)
 	results := runAll(c, specs, maxLen)
 	sort.SliceStable(results, func(i, j int) bool { return results[i].spec.Class < results[j].spec.Class })
@@ -1960,7 +1990,7 @@ func replay(raw json.RawMessage) error {
 	}
 	_ = json.Unmarshal(raw, &probe)
 	switch probe.Class {
-	case "level", "sat", "post":
+	case "level", "sat", "post", "serve":
 		return fmt.Errorf("table case: re-run `bin/check C05 quick` (the table checks are exhaustive and deterministic): %s", string(raw))
 	}
 	var spec CaseSpec
